@@ -76,10 +76,16 @@ def sym_setup(kind, K, mode, box="sym", n=1, xname="x", seed=True):
     return x, params, bx
 
 
+FLOORS = {"rq": dict(min_bin_width=0.05, min_bin_height=0.2, min_derivative=0.3), "quadratic": dict(min_bin_width=0.05, min_bin_height=0.2), "cubic": dict(min_bin_width=0.05, min_bin_height=0.2), "linear": {}}
+USE_FLOORS = [False]  # a job may switch to non-default (and mutually different) floors
+
+
 def call(kind, mode, x, params, bx, inverse):
     f = FUNCS[(kind, mode)]
     kw = _kw(kind, params)
     kw.update(bx)
+    if USE_FLOORS[0]:
+        kw.update(FLOORS[kind])
     if mode == "tails":
         kw["tails"] = "linear"
     return f(inputs=x, inverse=inverse, **kw)
@@ -126,6 +132,8 @@ def real_call(kind, mode, x, params, bx, inverse):
     f = FUNCS[(kind, mode)]
     kw = _kw(kind, {k: v.clone() for k, v in params.items()})
     kw.update(bx)
+    if USE_FLOORS[0]:
+        kw.update(FLOORS[kind])
     if mode == "tails":
         kw["tails"] = "linear"
     return f(inputs=x, inverse=inverse, **kw)
